@@ -195,8 +195,8 @@ def _make_sw(sw, coords, dens, refpot, orography=None):
 
 
 def clauses(tier, seed):
-  from contracts import implicit_contracts
-  return _numeric_clauses(tier, seed) + implicit_contracts.clauses()
+  from contracts import conformance_contracts, implicit_contracts, vertical_matrix_contracts
+  return _numeric_clauses(tier, seed) + implicit_contracts.clauses() + vertical_matrix_contracts.clauses() + [conformance_contracts.clauses()['C03']]
 
 
 def _numeric_clauses(tier, seed):
@@ -249,8 +249,8 @@ def replay_primitive(w):
 
 MANIFEST = {
     'engine': 'pyvc+jxa',
-    'technique': 'contract-based deductive: shallow-water resolvent (both sides, both signs of eta), linearity and TimeReversedImExODE proved from the real source (pyvc, z3 NRA); linearity and pass-through proved on the traced program; resolvent / method-agreement / dense-vs-cumsum identities as matrix identities on the complete state basis (bounded over level sets, profiles, step sizes)',
+    'technique': 'contract-based deductive: shallow-water resolvent (both sides, both signs of eta), linearity and TimeReversedImExODE proved from the real source (pyvc, z3 NRA); the vertical weight matrices G and H equal their documented entries and the cumulative-sum (sparse) products equal the dense ones for every number of layers (pyvc matrix mode: loop invariants, ghost partial sums, induction lemma, case-split nlsat); linearity and pass-through proved on the traced program; primitive-equation resolvent / method-agreement identities as matrix identities on the complete state basis (bounded over level sets, profiles, step sizes)',
     'text': ('other: complete over states (linearity proved per configuration from the jaxpr, then matrices on the full state basis), '
              'bounded over the enumerated vertical discretisations, reference profiles, step sizes of both signs, grids and methods.'),
-    'note': 'trusted: np.linalg.inv as used by the code; A1/A2; jxa rules. The SMT elementwise proof for shallow water planned in DESIGN is not built; shallow water is covered numerically.',
+    'note': 'trusted: np.linalg.inv as used by the code; A1/A2; jxa rules; callee contracts of the vertical-matrix clauses (_vertical_matvec == row sums, _dot_cumsum == prefix/suffix sums -- the latter under contract in C13/C07); A9 log uninterpreted. The primitive-equation implicit_inverse (per-wavenumber matrix inverse) is decided by bounded matrix identities only.',
 }
